@@ -717,6 +717,20 @@ pub fn m06(ix: &Index) -> Vec<Violation> {
             }
         }
     }
+    // "an identifier stays reserved exactly as long as its operation is incomplete": right after the service call that
+    // puts an identifier on the wire the engine must hold it reserved (unless the same call also resolved the operation)
+    for (i, em) in tr.emitted.iter().enumerate() {
+        if em.id_reserved_after == Some(false) {
+            let owner = match &em.pkt {
+                rf::Packet::Pubrel(_) => ix.tags.iter().find(|(_, r)| r.pubrels.contains(&i)).map(|(t, _)| *t),
+                _ => em.tag,
+            };
+            let resolved_by_same_call = owner.and_then(|t| ix.tags.get(&t)).map(|r| r.dones.iter().any(|d| d.3 == em.call)).unwrap_or(false);
+            if !resolved_by_same_call && owner.is_some() {
+                out.push(v("C06.id_not_reserved", format!("{} sent with a packet identifier the engine does not hold reserved", em.pkt.type_name()), format!("conn {} tag {:?}", em.conn, owner)));
+            }
+        }
+    }
     for e in &tr.evs {
         if let Ev::FinalSnapshot { after_reset, allocated_ids, unresolved_tags, .. } = e {
             if *allocated_ids != 0 && (*unresolved_tags == 0 || *after_reset) {
@@ -980,7 +994,36 @@ pub fn m09(ix: &Index) -> Vec<Violation> {
                 continue;
             }
             // outstanding before this emission
-            let outstanding_pub = on_conn.iter().filter(|(t, _, q)| *q && *t != tag && !ix.tags[t].resolved_before(eev)).count();
+            // in flight: not resolved at the client - or reported *successful* to the application although the server
+            // has not yet sent the acknowledgement that ends the exchange (PUBACK, PUBCOMP or a failing PUBREC): on a
+            // correct client success implies that acknowledgement, so this adds nothing there, but a client that frees
+            // the slot early (e.g. at a non-failing PUBREC) keeps occupying it from the server's point of view
+            let server_finished_before = |t: &u32, ev: usize| -> bool {
+                // packet ids this operation's PUBLISH used on this connection, with the event index of the emission
+                let pids: Vec<(u16, usize)> = ix.tags[t].emits.iter().chain(ix.tags[t].pubrels.iter()).filter(|&&x| tr.emitted[x].conn == *conn).filter_map(|&x| match &tr.emitted[x].pkt {
+                    rf::Packet::Publish(pp) => pp.pid.map(|p| (p, ix.emit_ev[x])),
+                    rf::Packet::Pubrel(a) => Some((a.pid, ix.emit_ev[x])),
+                    _ => None,
+                }).collect();
+                tr.evs[..ev].iter().enumerate().any(|(i, e)| match e {
+                    Ev::SrvSend { conn: cc, desc: SrvDesc::Ack { type_code, reason, for_tag, pid, .. }, compliant: true, .. } if cc == conn => {
+                        let mine = *for_tag == Some(*t);
+                        (mine && (*type_code == 4 || (*type_code == 5 && *reason >= 0x80))) || (*type_code == 7 && (mine || pids.iter().any(|(p, pe)| p == pid && *pe < i)))
+                    }
+                    _ => false,
+                })
+            };
+            let occupies = |t: &u32| -> bool {
+                let r = &ix.tags[t];
+                if !r.resolved_before(eev) {
+                    return true;
+                }
+                match r.dones.first() {
+                    Some((_, _, d, _)) if done_is_ok(d) => !server_finished_before(t, eev),
+                    _ => false,
+                }
+            };
+            let outstanding_pub = on_conn.iter().filter(|(t, _, q)| *q && *t != tag && occupies(t)).count();
             let outstanding_all = on_conn.iter().filter(|(t, _, _)| *t != tag && !ix.tags[t].resolved_before(eev)).count();
             if is_pubq && outstanding_pub + 1 > rm {
                 out.push(v("C09.receive_maximum", "more QoS1/2 publishes in flight than the server's Receive Maximum", format!("conn {} receive maximum {} in flight {}", conn, rm, outstanding_pub + 1)));
